@@ -136,7 +136,8 @@ Definition set_retained (st : ost) (i : nat) (mp t p : string) (dup : bool) : os
 Definition end_session_o (st : ost) (c : string) : ost :=
   let n := match find_sess st c with Some x => onode x | None => O end in
   let st1 := upd_sess st (fun x => s_alive x false) c in
-  dirty_from (set_in2 st1 (filter (fun e => negb (String.eqb (ic e) c)) (t_in2 st1))) n.
+  (* its pending handshakes stay in the in-flight table until the next sweep, like its deliveries *)
+  dirty_from st1 n.
 (* a session ends: the connection is closed; a will exactly when the end is unclean (displacement aside) *)
 Definition check_end (st : ost) (c : string) (clean : bool) (obs : list eobs) : ost * list nat :=
   match find_sess st c with
@@ -161,7 +162,8 @@ Definition check_end (st : ost) (c : string) (clean : bool) (obs : list eobs) : 
 (* the event of a step can close only its own connection *)
 Definition cause_of (o : eop) : list string :=
   match o with
-  | EConnect _ c _ _ _ _ _ _ | EBadConnect _ c | EPublish c _ _ _ _ | EPing c _ | EDisconnect c _ | EProtoError c _ | EEof c _ => [c]
+  | EConnect _ c _ _ _ _ _ _ | EBadConnect _ c | EPublish c _ _ _ _ | EPing c _ | EDisconnect c _ | EProtoError c _ | EEof c _
+  | ENoop c (* a packet only a broker sends: a protocol error if the broker chooses to treat it so *) => [c]
   | _ => []
   end.
 
@@ -210,7 +212,7 @@ Definition ostep (st : ost) (s : eop * list eobs) : ost * list nat :=
         (st, chk (has_pkt c (fun p => match p with OConnAck code => negb (code =? 0) | _ => false end) obs
                   && negb (has_pkt c (fun p => match p with OConnAck 0 => true | _ => false end) obs) && quiet obs) 10
              (* a connection without a session stays under the CONNECT allowance *)
-             ++ chk (has_closed c obs || existsb (fun ob => match ob with Deadline c' ms => String.eqb c' c && (0 <? ms) && (ms <=? 10000) | _ => false end) obs) 14)%list
+             ++ chk (has_closed c obs || existsb (fun ob => match ob with Deadline c' ms => String.eqb c' c && (0 <? ms) && (ms <=? 600000) | _ => false end) obs) 14)%list
       else
         let mp := if String.eqb user "" then "_default" else user in
         let x := OSess c n (t_next st) (session_id (t_next st)) mp cid true [] will ka false false [n] in
@@ -228,8 +230,9 @@ Definition ostep (st : ost) (s : eop * list eobs) : ost * list nat :=
         else
           (* not admitted: legitimate only for an identifier that is not well-formed UTF-8; then the
              connection is closed and nothing is created (the authenticator did hand out an id) *)
-          (set_next st (S (t_next st)), chk (negb (utf8_ok cid && utf8_ok mp) && has_closed c obs && is_nil (outs_to c obs) && quiet obs) 13)
-    | EBadConnect n c => (st, chk (has_closed c obs && is_nil (outs_to c obs) && quiet obs) 12)
+          (set_next st (S (t_next st)), chk (negb (utf8_ok cid && utf8_ok mp) && (has_closed c obs || has_pkt c (fun p => match p with OConnAck code => negb (code =? 0) | _ => false end) obs) && quiet obs) 13)
+    (* a first packet that is not a CONNECT: no session, nothing published; whether the broker answers before hanging up is its business *)
+    | EBadConnect n c => (st, chk (negb (has_pkt c (fun p => match p with OConnAck 0 => true | _ => false end) obs) && quiet obs) 12)
     | EPublish c p dup mid clk =>
       match find_sess st c with
       | None => (st, [])
@@ -259,7 +262,7 @@ Definition ostep (st : ost) (s : eop * list eobs) : ost * list nat :=
         let replay := flat_map (fun fq => flat_map (fun kv => if mmatch (levels (prefix_mp (omp x) (fst fq))) (levels (fst kv))
                                                               then [(c, trim_mp (omp x) (fst kv), fst (snd kv), snd fq, true, snd (snd kv))] else []) (t_ret st)) fs in
         (st1,
-         chk (obadw x || has_pkt c (fun q => match q with OSubAck m qs => (m =? mid) && list_eqb Z.eqb qs (map snd fs) | _ => false end) obs) 30
+         chk (obadw x || has_pkt c (fun q => match q with OSubAck m qs => (m =? mid) && Nat.eqb (length qs) (length fs) | _ => false end) obs) 30
          ++ chk (negb (knows_all st (onode x)) || negb (forallb (fun fq => filter_ok (levels (fst fq))) fs)
                  || negb (forallb (fun kv => topic_ok (levels (fst kv))) (t_ret st)) || obadw x
                  || perm_eqb pub6_eqb (publishes obs) replay) 31
@@ -356,16 +359,22 @@ Definition ostep (st : ost) (s : eop * list eobs) : ost * list nat :=
     | EFailAppend n k => (set_failn st ((n, k) :: filter (fun p => negb (Nat.eqb (fst p) n)) (t_fail st)), [])
     | ECheck n =>
       let here := filter (fun x => oalive x && negb (otomb x)) (t_sess st) in
-      if negb (told_all st n) || t_unsure st then (st, [])
-      else
-        (st, flat_map (fun ob => match ob with
-           | Listed _ ss sb reg =>
-             (chk (perm_eqb String.eqb (map m_sid ss) (map osid here)) 90
-              ++ chk (perm_eqb String.eqb reg (map osid (filter (fun x => oalive x && Nat.eqb (onode x) n) (t_sess st)))) 91
-              ++ chk (perm_eqb ss_eqb (map (fun s => (s_sid s, s_pattern s)) sb)
-                               (flat_map (fun x => if oalive x then map (fun fq => (osid x, prefix_mp (omp x) (fst fq))) (ofil x) else []) (t_sess st))) 92)%list
-           | _ => [] end) obs)
-    | ENoop c => (st, chk (quiet obs && negb (has_closed c obs)) 95)
+      let views_known := told_all st n && negb (t_unsure st) in
+      (st, flat_map (fun ob => match ob with
+         | Listed _ ss sb reg pend =>
+           ((if views_known then
+               chk (perm_eqb String.eqb (map m_sid ss) (map osid here)) 90
+               ++ chk (perm_eqb ss_eqb (map (fun s => (s_sid s, s_pattern s)) sb)
+                                (flat_map (fun x => if oalive x then map (fun fq => (osid x, prefix_mp (omp x) (fst fq))) (ofil x) else []) (t_sess st))) 92
+             else [])
+            ++ chk (perm_eqb String.eqb reg (map osid (filter (fun x => oalive x && Nat.eqb (onode x) n) (t_sess st)))) 91
+            (* nothing is pending on this node but the exchanges seen on the wire and not yet completed or swept
+               (exchanges towards a connection whose writes fail are not seen: skipped then) *)
+            ++ chk (existsb obadw (t_sess st) ||
+                    Nat.eqb pend (length (filter (fun e => Nat.eqb (xnode e) n) (t_exch st))
+                                  + length (filter (fun e => match find_sess st (ic e) with Some x => Nat.eqb (onode x) n | None => false end) (t_in2 st)))) 93)%list
+         | _ => [] end) obs)
+    | ENoop c => if has_closed c obs then check_end st c false obs else (st, chk (quiet obs) 95)
     | EPanic => (st, [2%nat])
     end in
   (* deliveries that appear outside a sweep start new exchanges: their identifiers must be free *)
